@@ -1,13 +1,16 @@
 #!/bin/bash
-# try_seed.sh <patch.diff> <budget_s> <property>... : apply a seeded change to /repo, run the quick checks, undo it.
+# try_seed.sh <patch.diff> <budget_s> <property>... : run the quick checks against a seeded change.
+# The change is applied to a scratch worktree of /repo's HEAD (VERIF_REPO points the checks at it), so that
+# /repo itself stays untouched while background runs use it; equivalent to `git -C /repo apply` + checkout.
 PATCH="$1"; BUD="$2"; shift 2
-git -C /repo diff --quiet || { echo "/repo is dirty"; exit 2; }
-git -C /repo apply "$PATCH" || { echo "patch does not apply"; exit 2; }
-trap 'git -C /repo checkout -- . ; git -C /repo clean -fdq' EXIT
+W=/tmp/tryseed.$$
+git -C /repo worktree add -q --detach "$W" HEAD || exit 2
+trap 'git -C /repo worktree remove --force "$W" >/dev/null 2>&1' EXIT
+git -C "$W" apply "$PATCH" || { echo "patch does not apply"; exit 2; }
 for p in "$@"; do
-  out=$(VERIF_BUDGET_S=$BUD python3 /verif/vcheck.py check -p $p 2>&1)
+  out=$(VERIF_REPO="$W" VERIF_BUDGET_S=$BUD python3 /verif/vcheck.py check -p $p 2>&1)
   rc=$?
   echo "--- $p exit=$rc"
-  echo "$out" | grep "VIOLATION\|  class\|KNOWN-FINDING\|INFRA\|RESULT" | cut -c1-260
+  echo "$out" | grep "VIOLATION\|  class\|INFRA\|RESULT" | cut -c1-260
   echo "$out" | grep -A1 "  class" | grep -v "class\|^--" | cut -c1-400 | head -6
 done
